@@ -62,6 +62,33 @@ fn func_wat(f: &FuncShape, idx: usize) -> String {
     s
 }
 
+/// the module of `funcs` written with wasm-encoder: every group of local declarations exactly as generated
+fn raw_module(funcs: &[FuncShape]) -> Vec<u8> {
+    use wasm_encoder::{CodeSection, Function, FunctionSection, Instruction, Module, TypeSection, ValType};
+    let vt = |t: usize| ValType::from(&TYS[t].dt);
+    let (mut types, mut fs, mut code) = (TypeSection::new(), FunctionSection::new(), CodeSection::new());
+    for (i, f) in funcs.iter().enumerate() {
+        types.ty().function(f.params.iter().map(|p| vt(*p)), []);
+        fs.function(i as u32);
+        let mut b = Function::new(f.decls.iter().map(|(c, t)| (*c, vt(*t))));
+        if f.branchy {
+            b.instruction(&Instruction::Block(wasm_encoder::BlockType::Empty));
+            b.instruction(&Instruction::Br(0));
+            b.instruction(&Instruction::End);
+        }
+        for _ in 0..f.nops {
+            b.instruction(&Instruction::Nop);
+        }
+        b.instruction(&Instruction::End);
+        code.function(&b);
+    }
+    let mut m = Module::new();
+    m.section(&types);
+    m.section(&fs);
+    m.section(&code);
+    m.finish()
+}
+
 /// decoded view of a function: (param codes, expanded local codes)
 fn decode_funcs(wasm: &[u8]) -> Result<Vec<(Vec<u32>, Vec<u32>)>, String> {
     use wasmparser::{Parser, Payload};
@@ -167,6 +194,16 @@ pub fn run(ctx: &mut Ctx) {
         let bytes = match wat::parse_str(&text) {
             Ok(b) => b,
             Err(e) => panic!("generator produced bad wat: {e}\n{text}"),
+        };
+        // the text format cannot say how locals are grouped (its encoder merges neighbours of one type and drops empty groups): one
+        // module in three is written with wasm-encoder instead, group by group as generated - neighbouring groups of one type,
+        // groups of zero locals
+        let raw_groups = !is_comp && !replaced && case % 3 == 1;
+        let bytes = if raw_groups {
+            ctx.count("input=local-groups-as-generated");
+            raw_module(&funcs)
+        } else {
+            bytes
         };
         // what the *input* declares (after `wat`'s own grouping), function by function
         let before = decode_funcs(&bytes).expect("input decodes");
